@@ -162,8 +162,13 @@ def gen_timeout_string(rng):
         num = str(rng.choice([0, 1, 2, 5, 10, 30, 59, 60, 100, 250, 999, 1000, 1500, 3600, 86400]))
     elif k < 0.8:
         num = f"{rng.choice([0, 1, 2, 15, 999])}.{rng.choice(['5', '25', '001', '75', '125'])}"
-    else:
+    elif k < 0.9:
         num = str(rng.randrange(0, 100000))
+    else:
+        # many significant digits (a unparse that rounds to a few digits loses them)
+        num = f"{rng.randrange(1, 100000)}.{rng.randrange(1, 10**rng.choice([3, 4, 6])):0{rng.choice([4, 6])}d}".rstrip("0") or "1.5"
+        if num.endswith("."):
+            num += "5"
     return num + unit
 
 
@@ -241,7 +246,7 @@ def part_roundtrip(rng, res, n):
 MALFORMED = {
     "solver_timeout_assertion": ["abc", "5x", "ms", "", "1..2s", "s5", "--", "5 5s", "1,5s"],
     "panic_error_codes": ["abc", "0x", "1,x", "", ",", "0xZZ", "1;2"],
-    "array_lengths": ["x", "x=", "=3", "x={}", "x={a}", "x=1,y", "x={1,2", "x=1}", "x=={1}", "x={1},,y=2"],
+    "array_lengths": ["x", "x=", "=3", "x={}", "x={a}", "x=1,y", "x={1,2", "x=1}", "x=={1}", "x={1},,y=2", "x={,}", "x={,,}", "x={1,2},y={,}", "x=,"],
     "default_bytes_lengths": ["a", "1,b", "", ",", "1;2"],
     "trace_events": ["FOO", "LOG,BAR", "log"],
 }
